@@ -97,7 +97,7 @@ theorem coherent_recv (env : Env) (line : Str) (w : W) (h : Coherent w.st) : Coh
   (rel_recv preO (fun _ m _ => stepRel m) (ParkOK.of_all park_keeps) env).step w h
 
 theorem coherent_send (obj : Option Msg) (b : Bool) (w : W) (h : Coherent w.st) : Coherent (apiSend obj b w).2.st :=
-  (rel_apiSend (stepRel default) park_keeps obj b).step w h
+  (rel_apiSend (stepRel default) (fun sm _ => park_keeps sm) obj b).step w h
 
 theorem coherent_step (st : St) (op : Op) (h : Coherent st) : Coherent (stepOp st op).1 := by
   cases op with
